@@ -111,7 +111,8 @@ def run(tier, seed):
         f["programs"] += 1
         total += 8
         name = c["id"].split("|")[1]
-        regime = c["id"].split("|")[2] if not c["id"].split("|")[2].startswith("gc=") else ""
+        last = c["id"].rsplit("|", 1)[1]
+        regime = last if not last.startswith("gc=") else ""
         if o.get("status") != "ok":
             f["growing"] += 1
             chk.fail("proc|" + c["id"] + c["src"], str(o.get("status")), "%s: worker %s during repeated runs" % (c["id"], o.get("status")), {"src": c["src"], "gc": c.get("gc")}, cluster="process-level failure: " + name[:50])
